@@ -261,6 +261,8 @@ class Program:
             self.relocated += reattach_static_aliases({m.name: m.tree for m in self.modules.values()})
             from .normalize import drop_observability
             drop_observability({m.name: m.tree for m in self.modules.values()})
+            from .normalize import merge_early_returns
+            merge_early_returns({m.name: m.tree for m in self.modules.values()})
             from .normalize import canonical_numpy_spellings
             canonical_numpy_spellings({m.name: m.tree for m in self.modules.values()})
             self.renamed_parameters = restore_parameter_names({m.name: m.tree for m in self.modules.values()})
